@@ -53,6 +53,12 @@ func smallSuite(sems []Sem) []reqSpec {
 	add("OPTIONS")
 	add("GET", hOrigin, "https://unrelated.example.net")
 	add("OPTIONS", hOrigin, "https://unrelated.example.net", hACRM, "PUT")
+	// every value an adversarial caller / handler writes in place somewhere (scribbleWords), presented as an Origin: if the
+	// middleware kept an alias of a slice that was overwritten, it now "remembers" that value
+	for _, w := range scribbleWords {
+		add("GET", hOrigin, w)
+		add("OPTIONS", hOrigin, w, hACRM, "PUT")
+	}
 	add("GET", hOrigin, "https://reused.example") // the origin a caller writes into a Config it passes again (mode multi)
 	add("OPTIONS", hOrigin, "https://reused.example", hACRM, "PUT")
 	for _, s := range sems {
@@ -82,7 +88,7 @@ func probeSuite(sems []Sem) []reqSpec {
 	add("GET")
 	add("OPTIONS")
 	add("OPTIONS", hACRM, "PUT")
-	origins := []string{"https://unrelated.example.net", "null", "junk"}
+	origins := append([]string{"https://unrelated.example.net", "null", "junk"}, scribbleWords...)
 	for _, s := range sems {
 		for _, p := range s.Pats {
 			origins = append(origins, originFromPattern(rng, p).String())
@@ -316,6 +322,8 @@ func invalidConfigs() []labelledConfig {
 
 // ---------------------------------------------------------------- adversarial in-place writes (C12)
 
+var scribbleWords = []string{"*", "https://evil.example", "x-evil", "null", "true", "evil"}
+
 func scribble(s []string, with string) {
 	s = s[:cap(s)]
 	for i := range s {
@@ -356,6 +364,191 @@ func noise(m *cors.Middleware) {
 	m.Config()
 }
 
+// nearTweaks: the semantic configurations that differ from s in exactly one aspect.
+func nearTweaks(s Sem) []Sem {
+	var out []Sem
+	add := func(f func(t *Sem) bool) {
+		t := s
+		t.Pats = append([]cPattern(nil), s.Pats...)
+		t.Meths = append([]string(nil), s.Meths...)
+		t.HNames = append([]string(nil), s.HNames...)
+		t.Expose = append([]string(nil), s.Expose...)
+		if f(&t) {
+			out = append(out, t)
+		}
+	}
+	add(func(t *Sem) bool { // `*` with / without authorization next to it (anonymous)
+		if !t.HStar || t.Cred {
+			return false
+		}
+		t.HAuth = !t.HAuth
+		return true
+	})
+	add(func(t *Sem) bool { // discrete request headers <-> `*`
+		if t.HStar {
+			t.HStar, t.HAuth, t.HNames = false, false, []string{"x-a"}
+		} else {
+			t.HStar, t.HNames = true, nil
+		}
+		return true
+	})
+	add(func(t *Sem) bool { // one more request-header name
+		if t.HStar {
+			return false
+		}
+		t.HNames = append(t.HNames, "x-one-more")
+		sort.Strings(t.HNames)
+		return true
+	})
+	add(func(t *Sem) bool { // authorization listed or not (discrete)
+		if t.HStar {
+			return false
+		}
+		if t.HAuth {
+			t.HAuth = false
+			var k []string
+			for _, n := range t.HNames {
+				if n != "authorization" {
+					k = append(k, n)
+				}
+			}
+			t.HNames = k
+		} else {
+			t.HAuth, t.HNames = true, append([]string{"authorization"}, t.HNames...)
+		}
+		return true
+	})
+	add(func(t *Sem) bool { // max-age: default <-> disabled; a value <-> its successor
+		switch {
+		case t.MaxAge == 0:
+			t.MaxAge = -1
+		case t.MaxAge == -1:
+			t.MaxAge = 0
+		case t.MaxAge < 86400:
+			t.MaxAge++
+		default:
+			t.MaxAge--
+		}
+		return true
+	})
+	add(func(t *Sem) bool { t.MaxAge = map[bool]int{true: 0, false: 600}[t.MaxAge != 0]; return true })
+	add(func(t *Sem) bool { t.Status = map[bool]int{true: 200, false: 204}[t.Status == 204]; return true })
+	add(func(t *Sem) bool { t.Status = map[bool]int{true: 299, false: 201}[t.Status != 299]; return true })
+	add(func(t *Sem) bool { // one more / one fewer exposed name, `*`
+		if len(t.Expose) == 1 && t.Expose[0] == "*" {
+			t.Expose = []string{"x-exposed"}
+		} else {
+			t.Expose = append(t.Expose, "x-one-more-exposed")
+			sort.Strings(t.Expose)
+		}
+		return true
+	})
+	add(func(t *Sem) bool {
+		if t.Cred || (len(t.Expose) == 1 && t.Expose[0] == "*") {
+			return false
+		}
+		t.Expose = []string{"*"}
+		return true
+	})
+	add(func(t *Sem) bool { // methods: one more, or `*`
+		if t.MAny {
+			t.MAny, t.Meths = false, []string{"PUT"}
+		} else {
+			t.Meths = append(t.Meths, "PURGE")
+			sort.Strings(t.Meths)
+		}
+		return true
+	})
+	add(func(t *Sem) bool {
+		if t.MAny {
+			return false
+		}
+		t.MAny, t.Meths = true, nil
+		return true
+	})
+	add(func(t *Sem) bool { // credentials
+		if t.Any || (len(t.Expose) == 1 && t.Expose[0] == "*") {
+			return false
+		}
+		t.Cred = !t.Cred
+		return true
+	})
+	add(func(t *Sem) bool { // private-network access modes
+		if t.Any {
+			return false
+		}
+		t.Pna = map[string]string{"none": "cors", "cors": "nocors", "nocors": "none"}[t.Pna]
+		return true
+	})
+	add(func(t *Sem) bool {
+		if t.Any {
+			return false
+		}
+		t.Pna = map[string]string{"none": "nocors", "cors": "none", "nocors": "cors"}[t.Pna]
+		return true
+	})
+	add(func(t *Sem) bool { // origins: one more pattern; another port on the first one; all origins
+		if t.Any {
+			return false
+		}
+		t.Pats = append(t.Pats, cPattern{Scheme: "https", Host: "one-more.example"})
+		return true
+	})
+	add(func(t *Sem) bool {
+		if t.Any || len(t.Pats) == 0 {
+			return false
+		}
+		if t.Pats[0].Port == 0 {
+			t.Pats[0].Port = 8443
+		} else {
+			t.Pats[0].Port = 0
+		}
+		return true
+	})
+	add(func(t *Sem) bool {
+		if t.Any || t.Cred || t.Pna != "none" {
+			return false
+		}
+		t.Any = true
+		return true
+	})
+	return out
+}
+
+// lookAlikes derives INVALID configurations that differ from an accepted one as little as possible (a cache or an equality
+// test with an ambiguous key would confuse them with it).
+func lookAlikes(base *cors.Config) []*cors.Config {
+	var out []*cors.Config
+	mk := func(f func(c *cors.Config) bool) {
+		c := cloneConfig(base)
+		if f(c) {
+			out = append(out, c)
+		}
+	}
+	glue := func(l []string) ([]string, bool) {
+		if len(l) < 2 {
+			return nil, false
+		}
+		return append([]string{l[0] + "," + l[1]}, l[2:]...), true
+	}
+	mk(func(c *cors.Config) (ok bool) { c.Methods, ok = glue(c.Methods); return })
+	mk(func(c *cors.Config) (ok bool) { c.RequestHeaders, ok = glue(c.RequestHeaders); return })
+	mk(func(c *cors.Config) (ok bool) { c.ResponseHeaders, ok = glue(c.ResponseHeaders); return })
+	mk(func(c *cors.Config) (ok bool) { c.Origins, ok = glue(c.Origins); return })
+	mk(func(c *cors.Config) bool { c.Origins = append(c.Origins, c.Origins[0]+"/"); return true })
+	mk(func(c *cors.Config) bool { c.Origins[0] = c.Origins[0] + " "; return true })
+	mk(func(c *cors.Config) bool { c.MaxAgeInSeconds = 86401; return true })
+	mk(func(c *cors.Config) bool { c.PreflightSuccessStatus = 300; return true })
+	mk(func(c *cors.Config) bool {
+		if len(c.Methods) == 0 {
+			return false
+		}
+		c.Methods[len(c.Methods)-1] += " "
+		return true
+	})
+	return out
+}
+
 func scribbleHeader(h http.Header, with string) {
 	for _, v := range h {
 		scribble(v, with)
@@ -394,7 +587,7 @@ func (lr *lifeRun) mutatingServe(id string, with string) {
 func cmdLife(args []string) {
 	fs := flag.NewFlagSet("life", flag.ExitOnError)
 	trace := fs.String("trace", "", "NDJSON trace to write")
-	mode := fs.String("mode", "hist", "hist | multi | rejtwin | reject | roundtrip | mutate")
+	mode := fs.String("mode", "hist", "hist | multi | rejtwin | nearpairs | reject | roundtrip | mutate")
 	cases := fs.String("cases", "", "histories written by TLC (mode hist)")
 	n := fs.Int("n", 200, "number of cases (random modes)")
 	stride := fs.Int("stride", 1, "mode hist: replay every stride-th history (offset by seed)")
@@ -498,7 +691,7 @@ func cmdLife(args []string) {
 				}
 				return nil
 			}
-			words := []string{"*", "https://evil.example", "x-evil", "null", "true"}
+			words := scribbleWords
 			var ops []string
 			for _, st := range hist {
 				id := fmt.Sprintf("m%d", st.I)
@@ -617,6 +810,61 @@ func cmdLife(args []string) {
 				samples = append(samples, ops)
 			}
 		})
+	case "nearpairs":
+		// Reconfigure between configurations that differ in ONE aspect (both directions): afterwards the middleware must answer
+		// like a middleware built from the new configuration, and render the same Config(). (A reconfiguration that is skipped
+		// because the two "look equal", or that keeps part of the old state, shows here.)
+		bases := append([]Sem{A, B}, fixedSems(rng)...) // every kind of configuration first, then seeded ones
+		for bi := 0; bi < *n; bi++ {
+			var s Sem
+			if bi < len(bases) {
+				s = bases[bi]
+			} else {
+				s = randSem(rng)
+			}
+			if len(s.Pats) > 8 {
+				continue // the large-list configuration has its own checks; its probe suite would dominate the run time
+			}
+			for ti, tw := range nearTweaks(s) {
+				for dir := 0; dir < 2; dir++ {
+					from, to := s, tw
+					if dir == 1 {
+						from, to = tw, s
+					}
+					cf, ct := from.spell(rng), to.spell(rng)
+					if _, err := cors.NewMiddleware(*cf); err != nil {
+						continue
+					}
+					if _, err := cors.NewMiddleware(*ct); err != nil {
+						continue
+					}
+					ncases++
+					suite := probeSuite([]Sem{from, to})
+					if len(suite) > 400 { // an evenly spread sample
+						var sp []reqSpec
+						for q := 0; q < 400; q++ {
+							sp = append(sp, suite[q*len(suite)/400])
+						}
+						suite = sp
+					}
+					lr.reset(suite)
+					lr.ab = false
+					t.emit(map[string]any{"ev": "Note", "tweak": ti, "from": cfgJSON(cf), "to": cfgJSON(ct)})
+					lr.newMW("m", "c0", *cf)
+					if rng.Intn(2) == 0 {
+						lr.observe("m") // having served requests under the old configuration
+					}
+					lr.reconf("m", "c1", ct)
+					lr.newMW("f", "c1", *cloneConfig(ct))
+					lr.observe("f")
+					lr.observe("m")
+					lr.setDebug("m", true)
+					lr.setDebug("f", true)
+					lr.observe("f")
+					lr.observe("m")
+				}
+			}
+		}
 	case "reject":
 		// prior states: passthrough (zero value, Reconfigure(nil)), A/B x debug, random accepted configurations
 		type prior struct {
@@ -653,6 +901,18 @@ func cmdLife(args []string) {
 				c := ic.Cfg
 				lr.reconf("m", "invalid", &c)
 				lr.observe("m")
+			}
+			// invalid LOOK-ALIKES of configurations this process has accepted (the current one, A, B): the same values with two
+			// list entries glued by a comma, one entry re-spelled invalidly, or one scalar just out of range
+			bases := []*cors.Config{&cfgA, &cfgB}
+			if p.cfg != nil {
+				bases = append(bases, p.cfg)
+			}
+			for _, base := range bases {
+				for _, c := range lookAlikes(base) {
+					lr.reconf("m", "invalid", c)
+					lr.observe("m")
+				}
 			}
 			if p.cfg == nil { // also the other passthrough form
 				lr.newMW("m2", "A", cfgA)
